@@ -253,71 +253,67 @@ func (t *tr) optExpr(x ast.Expr) string {
 	return t.expr(x)
 }
 
+// ap("f", a, b) = "(f a b)"
+func ap(ctor string, args ...string) string { return "(" + ctor + " " + strings.Join(args, " ") + ")" }
+func ident(name string) string              { return ap("ident", q(name)) }
+
 func (t *tr) expr(x ast.Expr) string {
 	switch x := x.(type) {
 	case *ast.Ident:
-		return "(ident " + q(t.name(x.Name)) + ")"
+		return ident(t.name(x.Name))
 	case *ast.BasicLit:
-		return "(lit " + q(x.Value) + ")"
+		return ap("lit", q(x.Value))
 	case *ast.ParenExpr:
 		return t.expr(x.X)
 	case *ast.IndexExpr:
-		return "(idx " + t.expr(x.X) + " " + t.expr(x.Index) + ")"
+		return ap("idx", t.expr(x.X), t.expr(x.Index))
 	case *ast.SliceExpr:
-		if x.Slice3 {
-			return t.opaqueE(x)
+		if !x.Slice3 {
+			return ap("slc", t.expr(x.X), t.optExpr(x.Low), t.optExpr(x.High))
 		}
-		return "(slc " + t.expr(x.X) + " " + t.optExpr(x.Low) + " " + t.optExpr(x.High) + ")"
 	case *ast.UnaryExpr:
-		return "(un " + q(x.Op.String()) + " " + t.expr(x.X) + ")"
+		return ap("un", q(x.Op.String()), t.expr(x.X))
 	case *ast.BinaryExpr:
-		return "(bin " + q(x.Op.String()) + " " + t.expr(x.X) + " " + t.expr(x.Y) + ")"
+		return ap("bin", q(x.Op.String()), t.expr(x.X), t.expr(x.Y))
 	case *ast.StarExpr:
-		return "(star " + t.expr(x.X) + ")"
+		return ap("star", t.expr(x.X))
 	case *ast.SelectorExpr:
 		if t.ty != nil && t.ty.goType == "unsafe.Pointer" && t.isUnsafePtr(x) {
-			return "(ident \"$T\")"
+			return ident("$T")
 		}
-		return "(sel " + t.expr(x.X) + " " + q(t.selName(x.Sel.Name)) + ")"
+		return ap("sel", t.expr(x.X), q(t.selName(x.Sel.Name)))
 	case *ast.CallExpr:
 		if len(x.Args) == 1 && !x.Ellipsis.IsValid() && t.isTypeExpr(x.Fun) {
-			return "(conv " + t.expr(x.Fun) + " " + t.expr(x.Args[0]) + ")"
+			return ap("conv", t.expr(x.Fun), t.expr(x.Args[0]))
 		}
-		fn := t.callee(x.Fun)
-		if fn == "" {
-			return t.opaqueE(x)
+		if fn := t.callee(x.Fun); fn != "" && x.Ellipsis.IsValid() {
+			return ap("callv", q(fn), t.exprs(x.Args))
+		} else if fn != "" {
+			return ap("call", q(fn), t.exprs(x.Args))
 		}
-		if x.Ellipsis.IsValid() {
-			return "(callv " + q(fn) + " " + t.exprs(x.Args) + ")"
-		}
-		return "(call " + q(fn) + " " + t.exprs(x.Args) + ")"
 	case *ast.TypeAssertExpr:
-		if x.Type == nil {
-			return t.opaqueE(x)
+		if x.Type != nil {
+			return ap("assert", t.expr(x.X), t.expr(x.Type))
 		}
-		return "(assert " + t.expr(x.X) + " " + t.expr(x.Type) + ")"
 	case *ast.CompositeLit:
-		if x.Type == nil {
-			return t.opaqueE(x)
+		if x.Type != nil {
+			return ap("comp", t.expr(x.Type), t.exprs(x.Elts))
 		}
-		return "(comp " + t.expr(x.Type) + " " + t.exprs(x.Elts) + ")"
 	case *ast.KeyValueExpr:
-		return "(kv " + t.expr(x.Key) + " " + t.expr(x.Value) + ")"
+		return ap("kv", t.expr(x.Key), t.expr(x.Value))
 	case *ast.ArrayType:
-		if x.Len != nil {
-			return t.opaqueE(x)
+		if x.Len == nil {
+			return ap("sliceTy", t.expr(x.Elt))
 		}
-		return "(sliceTy " + t.expr(x.Elt) + ")"
 	case *ast.Ellipsis:
-		if x.Elt == nil {
-			return t.opaqueE(x)
+		if x.Elt != nil {
+			return ap("variadicTy", t.expr(x.Elt))
 		}
-		return "(variadicTy " + t.expr(x.Elt) + ")"
 	case *ast.FuncType:
-		return "(funcTy " + t.fieldTypes(x.Params) + " " + t.fieldTypes(x.Results) + ")"
+		return ap("funcTy", t.fieldTypes(x.Params), t.fieldTypes(x.Results))
 	case *ast.InterfaceType:
 		if x.Methods == nil || len(x.Methods.List) == 0 {
-			return "(ident \"interface{}\")"
+			return ident("interface{}")
 		}
 	}
 	return t.opaqueE(x)
@@ -344,21 +340,21 @@ func (t *tr) optStmt(x ast.Stmt) string {
 	if x == nil {
 		return "skip"
 	}
-	r := t.stmt(x)
-	if len(r) != 1 {
-		return t.opaqueS(x)
+	if r := t.stmt(x); len(r) == 1 {
+		return r[0]
 	}
-	return r[0]
+	return t.opaqueS(x)
 }
 
-func (t *tr) lhsDefine(xs []ast.Expr) (string, bool) {
+// declares the identifiers of a `:=` / `var` / `range` left-hand side
+func (t *tr) declared(xs []ast.Expr) (string, bool) {
 	var out []string
 	for _, x := range xs {
 		id, ok := x.(*ast.Ident)
 		if !ok {
 			return "", false
 		}
-		out = append(out, "(ident "+q(t.declare(id.Name))+")")
+		out = append(out, ident(t.declare(id.Name)))
 	}
 	return elist(out), true
 }
@@ -369,37 +365,39 @@ func (t *tr) stmt(x ast.Stmt) []string {
 	case *ast.EmptyStmt:
 		return nil
 	case *ast.ExprStmt:
-		return one("(expr " + t.expr(x.X) + ")")
+		return one(ap("expr", t.expr(x.X)))
 	case *ast.IncDecStmt:
-		return one("(incdec " + t.expr(x.X) + " " + q(x.Tok.String()) + ")")
+		return one(ap("incdec", t.expr(x.X), q(x.Tok.String())))
 	case *ast.AssignStmt:
-		rhs := t.exprs(x.Rhs) // before the left-hand side is declared
-		lhs := t.exprs(x.Lhs)
+		rhs, ok := t.exprs(x.Rhs), true // before the left-hand side is declared
+		lhs := ""
 		if x.Tok == token.DEFINE {
-			var ok bool
-			if lhs, ok = t.lhsDefine(x.Lhs); !ok {
-				return one(t.opaqueS(x))
-			}
+			lhs, ok = t.declared(x.Lhs)
+		} else {
+			lhs = t.exprs(x.Lhs)
 		}
-		return one("(asg " + lhs + " " + q(x.Tok.String()) + " " + rhs + ")")
+		if ok {
+			return one(ap("asg", lhs, q(x.Tok.String()), rhs))
+		}
 	case *ast.DeclStmt:
 		gd, ok := x.Decl.(*ast.GenDecl)
 		if !ok || gd.Tok != token.VAR {
-			return one(t.opaqueS(x))
+			break
 		}
 		var out []string
 		for _, sp := range gd.Specs {
 			vs := sp.(*ast.ValueSpec)
 			vals, ty := t.exprs(vs.Values), t.optExpr(vs.Type)
-			var names []string
+			var names []ast.Expr
 			for _, n := range vs.Names {
-				names = append(names, "(ident "+q(t.declare(n.Name))+")")
+				names = append(names, n)
 			}
-			out = append(out, "(var "+elist(names)+" "+ty+" "+vals+")")
+			lhs, _ := t.declared(names)
+			out = append(out, ap("var", lhs, ty, vals))
 		}
 		return out
 	case *ast.ReturnStmt:
-		return one("(ret " + t.exprs(x.Results) + ")")
+		return one(ap("ret", t.exprs(x.Results)))
 	case *ast.BranchStmt:
 		if x.Label == nil && x.Tok == token.BREAK {
 			return one("brk")
@@ -408,49 +406,41 @@ func (t *tr) stmt(x ast.Stmt) []string {
 			return one("cont")
 		}
 	case *ast.BlockStmt:
-		return one("(block " + t.block(x) + ")")
+		return one(ap("block", t.block(x)))
 	case *ast.IfStmt:
 		t.push()
 		defer t.pop()
-		init := t.optStmt(x.Init)
-		cond := t.expr(x.Cond)
-		thn := t.block(x.Body)
-		els := "s[]"
+		init, cond, thn, els := t.optStmt(x.Init), t.expr(x.Cond), t.block(x.Body), "s[]"
 		switch e := x.Else.(type) {
 		case *ast.BlockStmt:
 			els = t.block(e)
 		case *ast.IfStmt:
 			els = slist(t.stmt(e))
 		}
-		return one("(ifs " + init + " " + cond + " " + thn + " " + els + ")")
+		return one(ap("ifs", init, cond, thn, els))
 	case *ast.ForStmt:
 		t.push()
 		defer t.pop()
-		init := t.optStmt(x.Init)
-		cond := t.optExpr(x.Cond)
-		post := t.optStmt(x.Post)
-		return one("(for_ " + init + " " + cond + " " + post + " " + t.block(x.Body) + ")")
+		init, cond, post := t.optStmt(x.Init), t.optExpr(x.Cond), t.optStmt(x.Post)
+		return one(ap("for_", init, cond, post, t.block(x.Body)))
 	case *ast.RangeStmt:
 		rng := t.expr(x.X)
 		t.push()
 		defer t.pop()
 		kv := [2]string{"Expr.absent", "Expr.absent"}
 		for i, e := range []ast.Expr{x.Key, x.Value} {
-			if e == nil {
-				continue
-			}
 			if id, ok := e.(*ast.Ident); ok && x.Tok == token.DEFINE {
-				kv[i] = "(ident " + q(t.declare(id.Name)) + ")"
-			} else {
+				kv[i] = ident(t.declare(id.Name))
+			} else if e != nil {
 				kv[i] = t.expr(e)
 			}
 		}
-		return one("(range " + kv[0] + " " + kv[1] + " " + q(x.Tok.String()) + " " + rng + " " + t.block(x.Body) + ")")
+		return one(ap("range", kv[0], kv[1], q(x.Tok.String()), rng, t.block(x.Body)))
 	case *ast.SwitchStmt:
 		t.push()
 		defer t.pop()
 		init := t.optStmt(x.Init)
-		return one("(switch " + init + " " + t.optExpr(x.Tag) + " " + t.clauses(x.Body) + ")")
+		return one(ap("switch", init, t.optExpr(x.Tag), t.clauses(x.Body)))
 	case *ast.TypeSwitchStmt:
 		t.push()
 		defer t.pop()
@@ -467,13 +457,13 @@ func (t *tr) stmt(x ast.Stmt) []string {
 		}
 		ta, ok := subj.(*ast.TypeAssertExpr)
 		if x.Init != nil || !ok || ta.Type != nil {
-			return one(t.opaqueS(x))
+			break
 		}
 		s, b := t.expr(ta.X), "Expr.absent"
 		if bind != nil {
-			b = "(ident " + q(t.declare(bind.Name)) + ")"
+			b = ident(t.declare(bind.Name))
 		}
-		return one("(tswitch " + b + " " + s + " " + t.clauses(x.Body) + ")")
+		return one(ap("tswitch", b, s, t.clauses(x.Body)))
 	}
 	return one(t.opaqueS(x))
 }
@@ -481,12 +471,11 @@ func (t *tr) stmt(x ast.Stmt) []string {
 func (t *tr) clauses(b *ast.BlockStmt) string {
 	var out []string
 	for _, c := range b.List {
-		cc, ok := c.(*ast.CaseClause)
-		if !ok {
+		if cc, ok := c.(*ast.CaseClause); ok {
+			out = append(out, t.clause(cc))
+		} else {
 			out = append(out, t.opaqueS(c))
-			continue
 		}
-		out = append(out, t.clause(cc))
 	}
 	return slist(out)
 }
@@ -495,9 +484,9 @@ func (t *tr) clause(cc *ast.CaseClause) string {
 	t.push()
 	defer t.pop()
 	if cc.List == nil {
-		return "(dflt " + t.stmts(cc.Body) + ")"
+		return ap("dflt", t.stmts(cc.Body))
 	}
-	return "(case " + t.exprs(cc.List) + " " + t.stmts(cc.Body) + ")"
+	return ap("case", t.exprs(cc.List), t.stmts(cc.Body))
 }
 
 // ---------------------------------------------------------------------------------------
